@@ -199,7 +199,16 @@ def run_unit(unit_path, repo, verif, workdir, threads=8, twin=True, log=None):
                 name = ' '.join(seg[o + 1:R.match_close(seg, msk, o)].split())
             except Exception:
                 pass
-            ctx = 'assume_specification (std/dependency behaviour assumed): ' + name
+            # stand-ins for repository types whose contract is proved in another unit
+            pv = None
+            for pat, where in getattr(config, 'PROVED_STANDIN', []):
+                if re.search(pat, name):
+                    pv = where
+                    break
+            if pv:
+                ctx = 'assume_specification on a stand-in of a repository type (contract proved in %s): %s' % (pv, name)
+            else:
+                ctx = 'assume_specification (std/dependency behaviour assumed): ' + name
         elif mt.group(1) in ('assume', 'admit'):
             ctx = 'ASSUME/ADMIT: ' + ctx
         res.trusted.append(ctx)
